@@ -585,7 +585,8 @@ impl<'a> Serializer<'a> {
 
         if self.options.is_compressed() && num < 1.0 {
             buffer.push_str(
-                format!("{:.10}", num)[1..]
+                format!("{:.10}", num)
+                    .trim_start_matches('0')
                     .trim_end_matches('0')
                     .trim_end_matches('.'),
             );
